@@ -259,6 +259,10 @@ def _search_model(ctx: Ctx, f: FunctionInfo) -> None:
             if e.name == "is_done":
                 if checks >= 1 and checks <= 3 and not since_check and bad is None:
                     bad = f"iteration {checks} evaluates nothing before the next budget check: the search can spin without progress"
+                if checks >= 1 and len(since_check) > 1 and bad is None:
+                    bad = (f"iteration {checks} hands {len(since_check)} batches (sizes {since_check}) to the tracker before the budget is consulted again: a budget that "
+                           f"is met after the first of them is noticed one batch late (with a budget of 1 the search makes {sum(since_check)} evaluations; a target "
+                           f"reached by the first batch does not stop it)")
                 checks += 1
                 since_check = []
             elif e.name == "evaluate":
